@@ -7058,130 +7058,150 @@ class TensorDictBase(MutableMapping):
             self.update(input_dict_or_td, update_batch_size=True)
             return self
 
-        for key, value in input_dict_or_td.items():
-            key = _unravel_key_to_tuple(key)
-            firstkey, subkey = key[0], key[1:]
-            if keys_to_update and not any(
-                firstkey == ktu if isinstance(ktu, str) else firstkey == ktu[0]
-                for ktu in keys_to_update
-            ):
-                continue
-            target = self._get_str(firstkey, None)
-            if clone and hasattr(value, "clone"):
-                value = value.clone()
-            elif clone:
-                value = tree_map(torch.clone, value)
-            # the key must be a string by now. Let's check if it is present
-            if target is not None:
-                if not is_leaf(type(target)) and not is_leaf(type(value)):
-                    if subkey:
-                        sub_keys_to_update = _prune_selected_keys(
-                            keys_to_update, firstkey
-                        )
-                        target.update(
-                            {subkey: value},
-                            inplace=inplace,
-                            clone=clone,
-                            keys_to_update=sub_keys_to_update,
-                            non_blocking=non_blocking,
-                            update_batch_size=update_batch_size,
-                            ignore_lock=ignore_lock,
-                        )
-                        if (
-                            update_batch_size
-                            and target.batch_size[: self.batch_dims] != self.batch_size
-                        ):
-                            # the nested tensordict was given the batch size of the source: this
-                            # level must follow (below), or it would not hold it coherently
-                            batch_size_changed = True
-                        continue
-                    elif isinstance(value, (dict,)) or _is_tensor_collection(
-                        type(value)
-                    ):
-                        from tensordict._lazy import LazyStackedTensorDict
-
-                        value_is_lazy_stack = isinstance(value, LazyStackedTensorDict)
-                        target_is_lazy_stack = isinstance(target, LazyStackedTensorDict)
-                        if value_is_lazy_stack and not target_is_lazy_stack:
-                            sub_keys_to_update = _prune_selected_keys(
-                                keys_to_update, firstkey
-                            )
-                            self._set_tuple(
-                                key,
-                                LazyStackedTensorDict(
-                                    *target.unbind(value.stack_dim),
-                                    stack_dim=value.stack_dim,
-                                ).update(
-                                    value,
-                                    inplace=inplace,
-                                    clone=clone,
-                                    keys_to_update=sub_keys_to_update,
-                                    non_blocking=non_blocking,
-                                    update_batch_size=update_batch_size,
-                                    ignore_lock=ignore_lock,
-                                ),
-                                validated=True,
-                                inplace=False,
-                                non_blocking=non_blocking,
-                            )
-
-                        else:
+        try:
+            for key, value in input_dict_or_td.items():
+                key = _unravel_key_to_tuple(key)
+                firstkey, subkey = key[0], key[1:]
+                if keys_to_update and not any(
+                    firstkey == ktu if isinstance(ktu, str) else firstkey == ktu[0]
+                    for ktu in keys_to_update
+                ):
+                    continue
+                target = self._get_str(firstkey, None)
+                if clone and hasattr(value, "clone"):
+                    value = value.clone()
+                elif clone:
+                    value = tree_map(torch.clone, value)
+                # the key must be a string by now. Let's check if it is present
+                if target is not None:
+                    if not is_leaf(type(target)) and not is_leaf(type(value)):
+                        if subkey:
                             sub_keys_to_update = _prune_selected_keys(
                                 keys_to_update, firstkey
                             )
                             target.update(
-                                value,
+                                {subkey: value},
                                 inplace=inplace,
                                 clone=clone,
-                                non_blocking=non_blocking,
                                 keys_to_update=sub_keys_to_update,
+                                non_blocking=non_blocking,
                                 update_batch_size=update_batch_size,
                                 ignore_lock=ignore_lock,
                             )
                             if (
                                 update_batch_size
-                                and target.batch_size[: self.batch_dims]
-                                != self.batch_size
+                                and target.batch_size[: self.batch_dims] != self.batch_size
                             ):
-                                # the nested tensordict was given the batch size of the source
-                                # (possibly several levels down): this level must follow (below)
+                                # the nested tensordict was given the batch size of the source: this
+                                # level must follow (below), or it would not hold it coherently
                                 batch_size_changed = True
+                            continue
+                        elif isinstance(value, (dict,)) or _is_tensor_collection(
+                            type(value)
+                        ):
+                            from tensordict._lazy import LazyStackedTensorDict
+
+                            value_is_lazy_stack = isinstance(value, LazyStackedTensorDict)
+                            target_is_lazy_stack = isinstance(target, LazyStackedTensorDict)
+                            if value_is_lazy_stack and not target_is_lazy_stack:
+                                sub_keys_to_update = _prune_selected_keys(
+                                    keys_to_update, firstkey
+                                )
+                                self._set_tuple(
+                                    key,
+                                    LazyStackedTensorDict(
+                                        *target.unbind(value.stack_dim),
+                                        stack_dim=value.stack_dim,
+                                    ).update(
+                                        value,
+                                        inplace=inplace,
+                                        clone=clone,
+                                        keys_to_update=sub_keys_to_update,
+                                        non_blocking=non_blocking,
+                                        update_batch_size=update_batch_size,
+                                        ignore_lock=ignore_lock,
+                                    ),
+                                    validated=True,
+                                    inplace=False,
+                                    non_blocking=non_blocking,
+                                )
+
+                            else:
+                                sub_keys_to_update = _prune_selected_keys(
+                                    keys_to_update, firstkey
+                                )
+                                target.update(
+                                    value,
+                                    inplace=inplace,
+                                    clone=clone,
+                                    non_blocking=non_blocking,
+                                    keys_to_update=sub_keys_to_update,
+                                    update_batch_size=update_batch_size,
+                                    ignore_lock=ignore_lock,
+                                )
+                                if (
+                                    update_batch_size
+                                    and target.batch_size[: self.batch_dims]
+                                    != self.batch_size
+                                ):
+                                    # the nested tensordict was given the batch size of the source
+                                    # (possibly several levels down): this level must follow (below)
+                                    batch_size_changed = True
+                            continue
+                    # A tensor collection may still be a leaf so we need to duplicate the logic here
+                    if (
+                        update_batch_size
+                        and _is_tensor_collection(type(target))
+                        and type(target) is type(value)
+                        and target.shape != value.shape
+                    ):
+                        batch_size_changed = True
+                        from tensordict._lazy import LazyStackedTensorDict
+
+                        # We can swap target with value if the batch sizes are incongruent. We must make sure the id of target
+                        # stays the same though
+                        if isinstance(target, LazyStackedTensorDict):
+                            target.__init__(
+                                *value.unbind(target.stack_dim),
+                                stack_dim=target.stack_dim,
+                                hook_out=target.hook_out,
+                                hook_in=target.hook_in,
+                                stack_dim_name=target._td_dim_name,
+                            )
+                        else:
+                            target = target.exclude(
+                                *target.keys(True, True, is_leaf=is_leaf), inplace=True
+                            )
+                            target.update(value, update_batch_size=update_batch_size)
+                            target.batch_size = value.batch_size
                         continue
-                # A tensor collection may still be a leaf so we need to duplicate the logic here
-                if (
-                    update_batch_size
-                    and _is_tensor_collection(type(target))
-                    and type(target) is type(value)
-                    and target.shape != value.shape
-                ):
-                    batch_size_changed = True
-                    from tensordict._lazy import LazyStackedTensorDict
 
-                    # We can swap target with value if the batch sizes are incongruent. We must make sure the id of target
-                    # stays the same though
-                    if isinstance(target, LazyStackedTensorDict):
-                        target.__init__(
-                            *value.unbind(target.stack_dim),
-                            stack_dim=target.stack_dim,
-                            hook_out=target.hook_out,
-                            hook_in=target.hook_in,
-                            stack_dim_name=target._td_dim_name,
-                        )
-                    else:
-                        target = target.exclude(
-                            *target.keys(True, True, is_leaf=is_leaf), inplace=True
-                        )
-                        target.update(value, update_batch_size=update_batch_size)
-                        target.batch_size = value.batch_size
-                    continue
-
-            self._set_tuple(
-                key,
-                value,
-                inplace=BEST_ATTEMPT_INPLACE if inplace else False,
-                validated=False,
-                non_blocking=non_blocking,
-            )
+                self._set_tuple(
+                    key,
+                    value,
+                    inplace=BEST_ATTEMPT_INPLACE if inplace else False,
+                    validated=False,
+                    non_blocking=non_blocking,
+                )
+        except Exception:
+            if update_batch_size:
+                # a nested tensordict may already have been given the batch size of the source
+                # when a later entry was refused (here or further down): this level must still
+                # follow it, or the refused call would leave it holding a nested tensordict it
+                # does not fit
+                try:
+                    bs = self.batch_size
+                    if batch_size_changed or any(
+                        _is_tensor_collection(type(item))
+                        and item.batch_size[: len(bs)] != bs
+                        for item in self.values()
+                    ):
+                        bd = self.batch_dims
+                        self.batch_size = ()
+                        self.auto_batch_size_(bd)
+                except Exception:
+                    pass
+            raise
         if batch_size_changed:
             bd = self.batch_dims
             self.batch_size = ()
